@@ -457,3 +457,30 @@ class ServiceScn(Scenario):
 
 
 SCENARIOS["service"] = ServiceScn()
+
+
+class DHTCrawlScn(DHTScn):
+    """
+    A DHT lookup in progress towards mostly unreachable nodes: node 0 knows 8 nodes, 6 of which go offline; its application
+    then runs find_nodes(), which keeps MAX_CRAWL_TASKS requests outstanding and more candidates to contact.
+    """
+
+    name = "dhtcrawl"
+    n_nodes = 9
+    expect_handlers = ()
+
+    async def script(self, c, nodes, step=_nop) -> None:  # noqa: ANN001
+        await self.introduce(nodes)
+        await step(0, "introduced")
+        for n in nodes[3:]:
+            n.crash()
+        a = nodes[0]
+        await step(1, "six of eight known nodes went offline")
+        try:
+            await a.acall(a.ov.find_nodes, b"\x33" * 20)
+        except Exception as e:  # noqa: BLE001
+            c.probe("dhtcrawl_exception:" + type(e).__name__)
+        await step(2, "crawl finished")
+
+
+SCENARIOS["dhtcrawl"] = DHTCrawlScn()
